@@ -95,6 +95,12 @@ def moveLoop (newFirst first : Nat) : Nat → Array EEntry → Array EEntry
 /-- new slice length on relocation: `(edge_count as f64 * GROWTH_FACTOR) as usize + 1` -/
 def growLen (cnt : Nat) : Nat := cnt * Tbx.Gen.dynGrowthNum / Tbx.Gen.dynGrowthDen + 1
 
+/-- the same quantity computed the way the Rust does, in IEEE double arithmetic (Lean's `Float` is
+    the C `double`): `(edge_count as f64 * GROWTH_FACTOR) as usize + 1`.  Used by the driver only, to
+    count per case how often it differs from `growLen` (statistic `fmis`); never used in a theorem. -/
+def growLenFloat (cnt : Nat) : Nat :=
+  (Float.floor (Float.ofNat cnt * (Float.ofNat Tbx.Gen.dynGrowthNum / Float.ofNat Tbx.Gen.dynGrowthDen))).toUInt64.toNat + 1
+
 /-- the block of `insert_edge` that makes the slot one past the slice of `s` a spare slot:
     right spare, else left spare, else relocation to the end -/
 def placeSlice (g : Graph) (s : Nat) (d : Int) : Option Graph :=
